@@ -976,6 +976,131 @@ def misc_bugclasses(prog, cfg_of_):
                                 f"'if {stmt_text(g.test, 50)}: return None' answers a lookup in {sorted(searched)} from "
                                 f"{sorted(tested)}: nothing keeps the two containers disjoint / in step (explicitly requested "
                                 f"ids may coincide), so an existing element is reported as missing"))
+    # ITERMUT: the list a `for` walks is changed inside the loop (remove / pop / insert / del / append on the very
+    # expression iterated, or a call that is known to remove from it): the iterator skips the element that slides into
+    # the freed slot (or never ends)
+    REMOVERS_OF = {'nodes': ('remove_node',), 'attackers': ('remove_attacker',), 'assets': ('remove_asset',),
+                   'associations': ('remove_association',)}
+    for f in prog.all_funcs():
+        if f.module.generated:
+            continue
+        for lp in own_nodes(f.node):
+            if not isinstance(lp, ast.For) or not isinstance(lp.iter, (ast.Name, ast.Attribute, ast.Subscript)):
+                continue
+            it = stmt_text(lp.iter, 200)
+            hit = None
+            for n in ast.walk(lp):
+                if n is lp.iter:
+                    continue
+                if isinstance(n, ast.Call) and isinstance(n.func, ast.Attribute) and n.func.attr in ('remove', 'pop', 'insert', 'clear') \
+                        and stmt_text(n.func.value, 200) == it:
+                    hit = n
+                if isinstance(n, ast.Delete) and any(isinstance(t, ast.Subscript) and stmt_text(t.value, 200) == it for t in n.targets):
+                    hit = n
+                if isinstance(lp.iter, ast.Attribute) and isinstance(n, ast.Call) and isinstance(n.func, ast.Attribute) \
+                        and n.func.attr in REMOVERS_OF.get(lp.iter.attr, ()) \
+                        and stmt_text(n.func.value, 100) == stmt_text(lp.iter.value, 100) \
+                        and any(isinstance(a, ast.Name) and a.id in {x.id for x in ast.walk(lp.target) if isinstance(x, ast.Name)}
+                                for a in n.args):
+                    hit = n
+            if hit is not None and not any(isinstance(x, (ast.Break, ast.Return)) for x in ast.walk(lp)
+                                           if x is not lp):
+                out.append((f, hit, 'ITERMUT',
+                            f"'{stmt_text(hit, 50)}' changes '{it}' while 'for {stmt_text(lp.target)} in {it}' walks it (no "
+                            f"snapshot): after a removal the next element slides into the freed slot and is skipped - "
+                            f"every second candidate of a run is never looked at"))
+    # SHAREDINLOOP: one mutable object made before a loop (or once per call) and handed to every object the loop builds /
+    # to several parameters of one constructor: the objects share it, what is added through one shows in all
+    for f in prog.all_funcs():
+        if f.module.generated:
+            continue
+        fresh = {}
+        for n in own_nodes(f.node):
+            tg, val = None, None
+            if isinstance(n, ast.Assign) and len(n.targets) == 1 and isinstance(n.targets[0], ast.Name):
+                tg, val = n.targets[0].id, n.value
+            elif isinstance(n, ast.AnnAssign) and isinstance(n.target, ast.Name) and n.value is not None:
+                tg, val = n.target.id, n.value
+            if tg and (isinstance(val, (ast.List, ast.Dict, ast.Set)) and not getattr(val, 'elts', getattr(val, 'keys', None))
+                       or (isinstance(val, ast.Call) and isinstance(val.func, ast.Name) and val.func.id in ('list', 'dict', 'set')
+                           and not val.args)):
+                fresh.setdefault(tg, []).append(n)
+        if not fresh:
+            continue
+        pm_ = {}
+        for x_ in ast.walk(f.node):
+            for ch_ in ast.iter_child_nodes(x_):
+                pm_[id(ch_)] = x_
+
+        def loops_of(x):
+            res, cur_ = [], pm_.get(id(x))
+            while cur_ is not None and cur_ is not f.node:
+                if isinstance(cur_, (ast.For, ast.While)):
+                    res.append(cur_)
+                cur_ = pm_.get(id(cur_))
+            return res
+        for nm, defs in fresh.items():
+            if len(defs) != 1:
+                continue
+            stores_ = sum(1 for x in own_nodes(f.node) if isinstance(x, ast.Name) and x.id == nm and isinstance(x.ctx, ast.Store))
+            if stores_ != 1:
+                continue
+            # the function fills it itself (an accumulator / result list): not handed over for keeping
+            if any(isinstance(c, ast.Call) and isinstance(c.func, ast.Attribute) and isinstance(c.func.value, ast.Name)
+                   and c.func.value.id == nm and c.func.attr in ('append', 'extend', 'add', 'update', 'insert', 'setdefault')
+                   for c in own_nodes(f.node)) or any(
+                    isinstance(r, ast.Return) and r.value is not None and any(isinstance(x, ast.Name) and x.id == nm for x in ast.walk(r.value))
+                    for r in own_nodes(f.node)):
+                continue
+            dloops = loops_of(defs[0])
+            for c in own_nodes(f.node):
+                if not (isinstance(c, ast.Call) and isinstance(c.func, (ast.Name, ast.Attribute))):
+                    continue
+                callee = c.func.id if isinstance(c.func, ast.Name) else c.func.attr
+                is_ctor = callee in prog.classes or callee == 'cls' or callee == 'replace'
+                if not is_ctor:
+                    continue
+                uses = [a for a in list(c.args) + [k.value for k in c.keywords] if isinstance(a, ast.Name) and a.id == nm]
+                if not uses:
+                    continue
+                cl = loops_of(c)
+                in_new_loop = any(l not in dloops for l in cl)
+                if in_new_loop or len(uses) >= 2:
+                    out.append((f, c, 'SHAREDINLOOP',
+                                f"'{nm}' is created once ('{stmt_text(defs[0], 40)}') and handed to "
+                                + (f"{len(uses)} parameters of '{stmt_text(c.func)}(..)'" if len(uses) >= 2 and not in_new_loop
+                                   else f"every '{stmt_text(c.func)}(..)' the loop constructs")
+                                + ": the objects keep the very same container, whatever one of them adds to it appears in the "
+                                  "others"))
+                    break
+    # PROTOTYPE: one object built before a loop with container fields, then `dataclasses.replace(proto, ..)` / `copy.copy`
+    # per iteration: replace() and copy() take the field VALUES over - every derived object holds the prototype's lists
+    for f in prog.all_funcs():
+        if f.module.generated:
+            continue
+        protos = {}
+        for n in own_nodes(f.node):
+            if isinstance(n, ast.Assign) and len(n.targets) == 1 and isinstance(n.targets[0], ast.Name) \
+                    and isinstance(n.value, ast.Call) and isinstance(n.value.func, ast.Name) and n.value.func.id in prog.classes \
+                    and any(isinstance(a, (ast.List, ast.Dict, ast.Set)) for a in list(n.value.args) + [k.value for k in n.value.keywords]):
+                protos[n.targets[0].id] = n
+        if not protos:
+            continue
+        for lp in own_nodes(f.node):
+            if not isinstance(lp, (ast.For, ast.While)):
+                continue
+            for c in ast.walk(lp):
+                if isinstance(c, ast.Call) and c.args and isinstance(c.args[0], ast.Name) and c.args[0].id in protos \
+                        and stmt_text(c.func).split('.')[-1] in ('replace', 'copy') \
+                        and not any(protos[c.args[0].id] is x for x in ast.walk(lp)):
+                    mut_kw = {k.arg for k in c.keywords}
+                    shared = [k.arg for k in protos[c.args[0].id].value.keywords
+                              if isinstance(k.value, (ast.List, ast.Dict, ast.Set)) and k.arg not in mut_kw]
+                    if shared or protos[c.args[0].id].value.args:
+                        out.append((f, c, 'PROTOTYPE',
+                                    f"'{stmt_text(c, 60)}' derives one object per iteration from '{c.args[0].id}', built once "
+                                    f"before the loop: replace / copy keep the prototype's field values, so all derived objects "
+                                    f"share its {shared or 'container'} - an element added to one shows up in every other"))
     # STRIPSET: str.strip / lstrip / rstrip take a SET of characters, not a prefix / suffix: `s.rstrip('.attacker')`
     # goes on removing any of . a t c k e r from the end ('write.attacker' -> 'wri')
     for f in prog.all_funcs():
@@ -1080,7 +1205,12 @@ def run(ctx) -> list[Inst]:
         flagged.add(f.qname)
         insts.append(Inst(RULE, f.short, f'{kind}: {stmt_text(n, 60)}', 'violation', msg=msg, file=rel,
                           line=getattr(n, 'lineno', f.node.lineno),
-                          props=tuple(dict.fromkeys(tuple(props_for(f.short, rel)) + (('C10', 'C09') if kind == 'CACHEDPROP' else ())))))
+                          props=tuple(dict.fromkeys(tuple(props_for(f.short, rel)) + (('C10', 'C09') if kind == 'CACHEDPROP' else ())
+                                                    + (tuple(__import__('malsa.props', fromlist=['MODULE_DEFAULT']).MODULE_DEFAULT.get(rel, ()))
+                                                       if kind in ('SHAREDINLOOP', 'ITERMUT', 'PROTOTYPE') else ())
+                                                    + (('C11',) if kind == 'PROTOTYPE' and '/attackgraph/' in rel else ())
+                                                    + (('C08',) if kind == 'ITERMUT' and 'apriori' in rel else ())
+                                                    + (('C12',) if kind == 'SHAREDINLOOP' and f.short == 'AttackGraph.attach_attackers' else ())))))
     for f in prog.all_funcs():
         if f.qname in flagged:
             continue
